@@ -123,7 +123,35 @@ pub fn gen_rule(r: &mut Rng, scripts: &[String]) -> String {
         6 => format!("{}:has-text(x)", sel(r)),
         _ => sel(r),
     };
-    format!("{}{}{}", loc, sep, body)
+    format!("{}{}{}{}", loc, sep, if r.pct(6) { " " } else { "" }, body)
+}
+
+/// Several rules for ONE host that land in every per-host store at once: plain hide, `:style`, a
+/// non-style action, a procedural rule, an injection, and exceptions for some of them (incl. the blanket
+/// `#@#+js()`). Per-host stores that are merged, converted or re-keyed (serialization, incremental
+/// updates) have to keep all of them apart.
+pub fn host_bundle(r: &mut Rng, host: &str, scriptlet: &str) -> Vec<String> {
+    let mut v = vec![
+        format!("{}##.b-hide", host),
+        format!("{}##.b-style:style(color: red)", host),
+        format!("{}##.b-style2:style(max-height: none !important)", host),
+        format!("{}##.b-remove:remove()", host),
+        format!("{}##.b-attr:remove-attr(x)", host),
+        format!("{}##.b-proc:has-text(x)", host),
+        format!("{}##+js({})", host, scriptlet),
+        format!("{}##+js({}, x)", host, scriptlet),
+    ];
+    // keep a random non-empty subset, then add exceptions for rules of the same host
+    v.retain(|_| r.pct(70));
+    match r.below(6) {
+        0 => v.push(format!("{}#@#.b-style:style(color: red)", host)),
+        1 => v.push(format!("{}#@#.b-hide", host)),
+        2 => v.push(format!("{}#@#+js()", host)),
+        3 => v.push(format!("{}#@#+js({})", host, scriptlet)),
+        4 => v.push(format!("sub.{}#@#+js()", host)),
+        _ => {}
+    }
+    v
 }
 
 pub fn script_pool() -> Vec<String> {
@@ -151,6 +179,10 @@ pub fn run_c16(seed: u64, n: usize, out: &mut Out) {
         let nr = 1 + r.below(10);
         let mut lines: Vec<String> = (0..nr).map(|_| gen_rule(&mut r, &scripts)).collect();
         if r.pct(30) {
+            let h = r.pick(HOSTS).to_string();
+            lines.extend(host_bundle(&mut r, &h, "f1"));
+        }
+        if r.pct(30) {
             lines.push(format!("@@||{}^$generichide", r.pick(HOSTS)));
         }
         if r.pct(35) {
@@ -171,6 +203,8 @@ pub fn run_c16(seed: u64, n: usize, out: &mut Out) {
                 lines.push(format!("{},badfilter", l));
             }
         }
+        crate::c11::emit_cplines(out, &lines);
+        crate::c11::emit_plines(out, &lines.iter().filter(|l| !l.contains('#')).cloned().collect::<Vec<_>>());
         let mut e = Engine::from_rules_parametrised(&lines, Default::default(), true, true);
         e.use_resources(resources.clone());
         let mut ghide_rules = parse_all(&lines);
@@ -287,12 +321,15 @@ pub fn run_c17(seed: u64, n: usize, out: &mut Out) {
         let mut lines: Vec<String> = vec![];
         for _ in 0..nr {
             let s = if r.pct(15) { r.pick(&["#\u{43d}\u{435}\u{434}\u{435}\u{43b}\u{44f}", ".\u{440}\u{435}\u{43a}\u{43b}\u{430}\u{43c}\u{430}", ".ad-\u{431}\u{430}\u{43d}\u{43d}\u{435}\u{440}", "#pub-publicit\u{e9} > div", ".promo\\:st\u{f8}rre", ".caf\\\u{e9}-banner", ".caf\\\u{e9}-banner > .inner", "#\\\u{5e83}\u{544a}-top", ".x\\\u{1f600}y"]).to_string() } else { sel(&mut r) };
+            // (white space between the separator and the selector is not part of the selector)
+            let gap = if r.pct(12) { *r.pick(&[&" ", &"\t", &"  "]) } else { "" };
             lines.push(match r.below(8) {
-                0 => format!("~a.com##{}", s),  // only negated hosts: a hidden generic rule
-                1 => format!("a.com##{}", s),   // site specific: must not be reachable generically
-                _ => format!("##{}", s),
+                0 => format!("~a.com##{}{}", gap, s),  // only negated hosts: a hidden generic rule
+                1 => format!("a.com##{}{}", gap, s),   // site specific: must not be reachable generically
+                _ => format!("##{}{}", gap, s),
             });
         }
+        crate::c11::emit_cplines(out, &lines);
         let e = Engine::from_rules_parametrised(&lines, Default::default(), true, true);
         let crules: Vec<CosmeticFilter> = lines.iter().filter_map(|l| parse_cosm(l)).collect();
         for f in &crules {
